@@ -221,8 +221,8 @@ class Ctx:
             # refutation search: pin the inputs to candidate points; a pinned query is easy for the solver.
             # (only 'sat' answers are used: they are genuine counterexamples of the unpinned goal)
             for pin in pins:
-                eqs = [self.vars[k] == to_z3(v) if k in self.vars else k == to_z3(v) for k, v in pin.items()]
-                st3, model3, solver3, _ = smt_check(assumptions + eqs, [z3.Not(claim)], 3000, mv, tactics=('default',))
+                pin_eqs = [self.vars[k] == to_z3(v) if k in self.vars else k == to_z3(v) for k, v in pin.items()]
+                st3, model3, solver3, _ = smt_check(assumptions + pin_eqs, [z3.Not(claim)], 3000, mv, tactics=('default',))
                 if st3 == 'sat':
                     st, model, solver = 'sat', model3, solver3 + '+pinned'
                     break
